@@ -44,6 +44,7 @@ type Trace struct {
 
 // Stats accumulates what the runs of one worker covered.
 type Stats struct {
+	ResumeAt    int               `json:"resume_at,omitempty"` // the worker stopped after this many of its runs (a deadlocked run left goroutines behind); the driver starts a new process for the rest
 	Runs        int               `json:"runs"`
 	Ops         int64             `json:"ops"`
 	SimSeconds  int64             `json:"sim_seconds"`
